@@ -16,7 +16,7 @@ import (
 )
 
 func init() {
-	register("C08", c08Range, c08Len, c08Refs, c08Reuse, c08Lock, c08Head, c08Precond, c08Stale)
+	register("C08", c08Range, c08Len, c08Refs, c08Reuse, c08Lock, c08Head, c08Precond, c08Stale, c08Thread)
 }
 
 // C08.range — postcondition of ParseByteRange under contentLength ≥ 0.
@@ -370,8 +370,18 @@ func c08Refs(e *Env) {
 	r.Check(closerOK, rule, "reader-types-are-closers", "-", "both reader types returned by NewReader have a Close method", "fsSmallFileReader or bigFileReader lacks Close: the comma-ok Closer assertion could fail and leak the count")
 	var readerVar *types.Var
 	okVars := map[string]bool{}
+	// a block that takes or gives back the count may have been moved into a helper
+	refInline := inlineWhen(info, func(f *types.Func) bool {
+		return f == nr.Obj || esp.Is(f, pkgApp, "fsFile", "decReadersCount")
+	}, func(n ast.Node) bool {
+		inc, ok := n.(*ast.IncDecStmt)
+		return ok && inc.Tok == token.INC && usedVar(info, inc.X) == field
+	})
 	rl := &esp.Rule{Name: rule, Init: "none",
 		Track: func(k string) bool { return k == "err == nil" },
+		Inline: func(f *types.Func, d *ast.FuncDecl) bool {
+			return f != nr.Obj && !esp.Is(f, pkgApp, "fsFile", "decReadersCount") && refInline(f, d)
+		},
 		Node: func(c *esp.Ctx, n ast.Node) {
 			switch x := n.(type) {
 			case *ast.IncDecStmt:
